@@ -328,7 +328,96 @@ def run_tree(ctx, p):
         pass
 
 
-RUNNERS = {'law': run_law, 'tree': run_tree}
+# ----------------------------------------------------------------------------- exact integer sub-group
+def _oct_group():
+    """the 24 rotation matrices with entries in {0, +-1} (octahedral group): every product, inverse and power is exact"""
+    import itertools as it
+    out = []
+    for perm in it.permutations(range(3)):
+        for signs in it.product((1, -1), repeat=3):
+            M = np.zeros((3, 3), dtype=np.int64)
+            for r in range(3):
+                M[r, perm[r]] = signs[r]
+            if round(float(np.linalg.det(M))) == 1:
+                out.append(M)
+    return out
+
+
+_OCT = _oct_group()
+_C4 = [np.array(m, dtype=np.int64) for m in ([[1, 0], [0, 1]], [[0, -1], [1, 0]], [[-1, 0], [0, -1]], [[0, 1], [-1, 0]])]
+
+
+def _imat(c, k, t):
+    """integer homogeneous / rotation matrix of element k with integer translation t"""
+    d = 2 if c in ('SO2', 'SE2') else 3
+    R = (_C4 if d == 2 else _OCT)[k % (4 if d == 2 else 24)]
+    if c in ('SO2', 'SO3'):
+        return R.copy()
+    T = np.eye(d + 1, dtype=np.int64)
+    T[:d, :d] = R
+    T[:d, d] = np.asarray(t[:d], dtype=np.int64)
+    return T
+
+
+def _iinv(c, M):
+    d = 2 if c in ('SO2', 'SE2') else 3
+    if c in ('SO2', 'SO3'):
+        return M.T.copy()
+    X = np.eye(d + 1, dtype=np.int64)
+    X[:d, :d] = M[:d, :d].T
+    X[:d, d] = -M[:d, :d].T @ M[:d, d]
+    return X
+
+
+def run_exact(ctx, p):
+    """elements with integer entries (quarter-turn rotations, integer translations), given as integer or float arrays: every
+    group operation has an exactly representable result, which the library must return bit for bit"""
+    import spatialmath as sm
+    c, ks, ts, dt, n = p['cls'], p['ks'], p['ts'], p['dtype'], int(p['n'])
+    C = getattr(sm, c)
+    sig = dict(api=c, law='exact_integer_subgroup', dtype=dt)
+    Ms = [_imat(c, k, t) for k, t in zip(ks, ts)]
+    give = (lambda M: M.astype(np.int64)) if dt == 'int' else (lambda M: M.astype(np.float64))
+    d = 2 if c in ('SO2', 'SE2') else 3
+
+    def ipow(M, e):
+        B = M if e >= 0 else _iinv(c, M)
+        out = np.eye(M.shape[0], dtype=np.int64)
+        for _ in range(abs(e)):
+            out = out @ B
+        return out
+    try:
+        X, Y, Z = (C(give(M)) for M in Ms[:3])
+        seq = C([give(M) for M in Ms])
+        pt = np.asarray(p['pt'][:d], dtype=np.int64)
+        wantp = Ms[0][:d, :d] @ pt + (Ms[0][:d, d] if c in ('SE2', 'SE3') else 0)
+        cases = [('X*Y', (X * Y).A, Ms[0] @ Ms[1]), ('X/Y', (X / Y).A, Ms[0] @ _iinv(c, Ms[1])), ('X.inv()', X.inv().A, _iinv(c, Ms[0])),
+                 ('X**n', (X ** n).A, ipow(Ms[0], n)), ('(X*Y)*Z', ((X * Y) * Z).A, Ms[0] @ Ms[1] @ Ms[2]), ('X*(Y*Z)', (X * (Y * Z)).A, Ms[0] @ Ms[1] @ Ms[2]),
+                 ('X*p', np.asarray(X * give(pt)).reshape(-1), wantp)]
+        prod = Ms[0]
+        for M in Ms[1:]:
+            prod = prod @ M
+        cases.append(('seq.prod()', seq.prod().A, prod))
+        inv_seq = seq.inv()
+        cases += [('seq.inv()[%d]' % i, inv_seq.data[i], _iinv(c, M)) for i, M in enumerate(Ms)]
+        sy = seq * Y
+        cases += [('(seq*Y)[%d]' % i, sy.data[i], M @ Ms[1]) for i, M in enumerate(Ms)]
+        ys = Y / seq
+        cases += [('(Y/seq)[%d]' % i, ys.data[i], Ms[1] @ _iinv(c, M)) for i, M in enumerate(Ms)]
+    except Exception as e:
+        ctx.bad('law', dict(sig, kind='raised', exc=type(e).__name__), 'exact sub-group operations raised %r (cls %s, dtype %s, elements %s)' % (e, c, dt, ks))
+        return
+    for name, got, want in cases:
+        got = np.asarray(got)
+        ok = got.shape == want.shape and np.array_equal(got.astype(np.float64), want.astype(np.float64))
+        ctx.judge('law', ok, dict(sig, kind='not_exact', expr=name.split('[')[0]),
+                  lambda: '%s on integer-valued elements (%s arrays) gives %s, the exact result is %s; elements %s translations %s n=%d' % (
+                      name, dt, core.short(got, 200), core.short(want, 200), ks, ts, n))
+    ctx.cell('exact', c, dt)
+    ctx.nontrivial('exact', c, dt, ks, ts, n)
+
+
+RUNNERS = {'law': run_law, 'tree': run_tree, 'exact': run_exact}
 
 
 def REACH():
@@ -369,6 +458,11 @@ def run(ctx):
         drive(RUNNERS, ctx, 'law', p)
         if ctx.ncases % 1499 == 1:
             ctx.sample(dict(kind='law', **p))
+    for _ in range(ctx.scale(1200, 30000)):
+        c = POSES[rng.integers(4)]
+        m = int(rng.integers(3, 6))
+        drive(RUNNERS, ctx, 'exact', dict(cls=c, ks=[int(k) for k in rng.integers(0, 24, size=m)], ts=[[int(v) for v in rng.integers(-9, 10, size=3)] for _ in range(m)],
+                                          dtype=['int', 'float'][rng.integers(2)], n=int(rng.integers(-5, 6)), pt=[int(v) for v in rng.integers(-9, 10, size=3)]))
     depth = 4 if ctx.tier == 'quick' else 5
     for _ in range(ctx.scale(3000, 80000)):
         c = ['SO2', 'SE2', 'SO3', 'SE3', 'UnitQuaternion'][rng.integers(5)]
